@@ -1,12 +1,37 @@
 (* C07 — Any-to-any conversion (library file API and CLI) preserves cues.
-   What the model carries today: the extension dispatch (case-insensitive; unsupported extension -> invalid
-   extension; .ts readable only), the nothing-to-write error, and - for the SubRip pair - reading back what was
-   written (C01).  The 42 format pairs, the operation sequences and the CLI are decided on the implementation by
-   the harness (own encoders for every source format, destination re-read and compared with the composed
-   specifications of the operations): correspondence/exploration, not proof, until the other codec models exist. *)
-From Coq Require Import List NArith.
-From Astisub Require Import Kit.Base Kit.Str Model.Files Model.Srt Proofs.FilesProofs.
+   What the model carries: the extension dispatch (case-insensitive; unsupported extension -> invalid
+   extension; .ts readable only), the nothing-to-write error, the same-format trips (C01, C02) and the two
+   cross-format conversions between the modelled codecs, SubRip -> WebVTT and WebVTT -> SubRip, for ALL
+   representable documents: the destination read back holds the same number of cues in the same order, times
+   truncated to the millisecond, the same text per line (Model/Conv.v is the conversion as the shared cue list
+   makes it; its bytes are compared with the library's on every generated document, suites convsv/convvs).
+   The other format pairs, the operation sequences and the CLI are decided on the implementation by the harness (own
+   encoders for every source format, destination re-read and compared with the composed specifications of the
+   operations, which are themselves the theorems of C09-C15): correspondence/exploration, not proof. *)
+From Coq Require Import List ZArith NArith.
+From Astisub Require Import Kit.Base Kit.Str Model.Files Model.Srt Model.Vtt Model.Conv Proofs.FilesProofs.
+From Astisub Require Import Proofs.SrtProofs Proofs.VttDoc Proofs.ConvProofs.
 Import ListNotations.
+
+(* SubRip file -> WebVTT file: cues, order, times to the millisecond, text per line *)
+Theorem C07_srt_to_vtt : forall l : list sitem,
+  Forall repr_item l -> l <> [] -> (Z.of_nat (length l) <= max_int64)%Z ->
+  repr_vdoc (conv_sv (renumber_truncate l)) [] [] ->
+  exists srt vtt d', write_srt l = Ok srt /\ convert_srt_vtt srt = Ok vtt /\ read_vtt vtt = Ok d' /\
+                     map vview (vd_items d') = map sview_ms l.
+Proof. exact srt_to_vtt. Qed.
+Print Assumptions C07_srt_to_vtt.
+
+(* WebVTT file -> SubRip file *)
+Theorem C07_vtt_to_srt : forall d so ro,
+  repr_vdoc d so ro -> Forall repr_item (conv_vs (ndoc d so ro)) ->
+  exists vtt srt l', write_vtt d so ro = Ok vtt /\ convert_vtt_srt vtt = Ok srt /\ read_srt srt = Ok l' /\
+                     map sview l' = map vview_ms (vd_items (ndoc d so ro)) /\ length l' = length (vd_items d).
+Proof. exact vtt_to_srt. Qed.
+Print Assumptions C07_vtt_to_srt.
+
+Example C07_conversion_example : Forall repr_item ex_conv /\ repr_vdoc (conv_sv (renumber_truncate ex_conv)) [] [].
+Proof. split; [exact ex_conv_srt | exact ex_conv_repr]. Qed.
 
 Theorem C07_case_insensitive : forall name, reader_for (to_lower name) = reader_for name /\ writer_for (to_lower name) = writer_for name.
 Proof. exact dispatch_case_insensitive. Qed.
